@@ -516,7 +516,7 @@ func (f *Frame) value(ins ssa.Value, st State) (Val, State) {
 		case *types.Array:
 			es := f.w.Sorts.SortOf(u.Elem())
 			comp := memComp(es)
-			st.Heap = st.Heap.Set(comp, vc.Define("h."+comp, Store(st.Heap.Comp(comp, memSort(es)), r, ConstArray(ArraySort(SInt, es), f.w.Sorts.Zero(es)))))
+			st.Heap = st.Heap.Set(comp, vc.Define("h."+comp, Store(st.Heap.Comp(comp, memSort(es)), r, f.zeroArr(es))))
 			return Val{T: r}, st
 		}
 		so := f.w.Sorts.SortOf(t)
@@ -614,7 +614,7 @@ func (f *Frame) value(ins ssa.Value, st State) (Val, State) {
 		st.Heap = h
 		es := f.w.Sorts.SortOf(ins.Type().Underlying().(*types.Slice).Elem())
 		comp := memComp(es)
-		st.Heap = st.Heap.Set(comp, vc.Define("h."+comp, Store(st.Heap.Comp(comp, memSort(es)), r, ConstArray(ArraySort(SInt, es), f.w.Sorts.Zero(es)))))
+		st.Heap = st.Heap.Set(comp, vc.Define("h."+comp, Store(st.Heap.Comp(comp, memSort(es)), r, f.zeroArr(es))))
 		return Val{T: MkSlice(r, IntLit(0), n, c)}, st
 	case *ssa.MakeMap:
 		mt := ins.Type().Underlying().(*types.Map)
@@ -662,7 +662,22 @@ func (f *Frame) sliceOp(ins *ssa.Slice, st State) (Val, State) {
 		} else {
 			f.safety("bounds", st, And(Le(IntLit(0), lo), Le(lo, hi), Le(hi, SCap(x.T))), "slice bounds out of range at "+f.pos(ins))
 		}
-		return Val{T: MkSlice(SArr(x.T), Add(SOff(x.T), lo), Sub(hi, lo), Sub(mx, lo))}, st
+		off := SOff(x.T)
+		noff := Add(off, lo)
+		if lo.S != "0" {
+			// the two views of the same backing array (consequences of elt's definition,
+			// stated so that element triggers carry over between the views)
+			es := f.w.Sorts.SortOf(u.Elem())
+			offA := vc.Alias("off", off)
+			noffA := vc.Alias("noff", noff)
+			loA := vc.Alias("lo", lo)
+			a := Term{"a", ArraySort(SInt, es)}
+			i := Term{"i", SInt}
+			vc.Assume(Forall([]Term{a, i}, Eq(f.w.Sorts.Elt(a, noffA, i), f.w.Sorts.Elt(a, offA, Add(loA, i))), []Term{f.w.Sorts.Elt(a, noffA, i)}))
+			vc.Assume(Forall([]Term{a, i}, Eq(f.w.Sorts.Elt(a, offA, i), f.w.Sorts.Elt(a, noffA, Sub(i, loA))), []Term{f.w.Sorts.Elt(a, offA, i)}))
+			return Val{T: MkSlice(SArr(x.T), noffA, Sub(hi, lo), Sub(mx, lo))}, st
+		}
+		return Val{T: MkSlice(SArr(x.T), noff, Sub(hi, lo), Sub(mx, lo))}, st
 	case *types.Basic: // string
 		hi := StrLen(x.T)
 		if ins.High != nil {
@@ -745,8 +760,8 @@ func (f *Frame) convert(ins *ssa.Convert, st State) (Val, State) {
 			comp := memComp(es)
 			st.Heap = st.Heap.Set(comp, vc.Define("h."+comp, Store(st.Heap.Comp(comp, memSort(es)), ref, arr)))
 			if eb, ok := u.Elem().Underlying().(*types.Basic); ok && eb.Kind() == types.Uint8 {
-				i := Term{"i", SInt}
-				vc.Assume(Forall([]Term{i}, Implies(And(Le(IntLit(0), i), Lt(i, StrLen(x.T))), Eq(Sel(arr, i), StrAt(x.T, i))), []Term{Sel(arr, i)}))
+				o, i := Term{"o", SInt}, Term{"i", SInt}
+				vc.Assume(Forall([]Term{o, i}, Implies(And(Le(IntLit(0), Add(o, i)), Lt(Add(o, i), StrLen(x.T))), Eq(f.w.Sorts.Elt(arr, o, i), StrAt(x.T, Add(o, i)))), []Term{f.w.Sorts.Elt(arr, o, i)}))
 				return Val{T: MkSlice(ref, IntLit(0), StrLen(x.T), StrLen(x.T))}, st
 			}
 			// []rune(string): length between 0 and len(s), at least 1 if s non-empty
@@ -849,4 +864,14 @@ func (vc *VC) noteIfaceAssert(t types.Type) {
 		vc.ifaceAsserts = map[string]types.Type{}
 	}
 	vc.ifaceAsserts[typeName(t)] = t
+}
+
+// zeroArr is a zero-initialised backing array.
+func (f *Frame) zeroArr(es Sort) Term {
+	z := f.w.Sorts.Zero(es)
+	a := f.vc.Fresh("zeroarr", ArraySort(SInt, es))
+	f.vc.Assume(Eq(a, ConstArray(ArraySort(SInt, es), z)))
+	o, i := Term{"o", SInt}, Term{"i", SInt}
+	f.vc.Assume(Forall([]Term{o, i}, Eq(f.w.Sorts.Elt(a, o, i), z), []Term{f.w.Sorts.Elt(a, o, i)}))
+	return a
 }
